@@ -65,7 +65,10 @@ class Formatter:
 
     _FORMAT_RE: re.Pattern[str] = re.compile(_TOKENS)
 
-    _FROM_FORMAT_RE: re.Pattern[str] = re.compile(r"(?<!\\\[)" + _TOKENS + r"(?!\\\])")
+    # Applied to the re.escape()d format, where escaped text reads \\[text\\]
+    _FROM_FORMAT_RE: re.Pattern[str] = re.compile(
+        r"\\\[(?:[^\[]*?)\\\]|(?<!\\\[)" + _TOKENS + r"(?!\\\])"
+    )
 
     _LOCALIZABLE_TOKENS: ClassVar[
         dict[str, str | Callable[[Locale], Sequence[str]] | None]
@@ -664,7 +667,10 @@ class Formatter:
             raise ValueError("Invalid date")
 
     def _replace_tokens(self, token: str, locale: Locale) -> str:
-        if token.startswith("[") and token.endswith("]"):
+        if token.startswith("\\[") and token.endswith("\\]"):
+            # Escaped text (already escaped for the regex)
+            return token[2:-2]
+        elif token.startswith("[") and token.endswith("]"):
             return token[1:-1]
         elif token.startswith("\\"):
             if len(token) == 2 and token[1] in {"[", "]"}:
